@@ -35,7 +35,7 @@ COMPONENTS = {
 }
 ASSUMPTIONS = ["reference order = plain recursive lexicographic enumeration, Lehmer-code rank (ref/order.py)",
                "str round trip only for length <= 10, integer notation only where a leading zero is not lost"]
-EXPECTED_PROBES = ["guided_interrupt", "memo_hit", "memo_equal_distinct_key", "after_flood", "after_clear", "interleaved_generators", "boundary_rank",
+EXPECTED_PROBES = ["memo_hit", "memo_equal_distinct_key", "after_flood", "after_clear", "interleaved_generators", "boundary_rank",
                    "ties", "error_case", "mesh_of_length", "first_generator", "interrupted_call", "interrupted_generator", "interrupted_rank_unrank"]
 
 
